@@ -8,6 +8,9 @@ verus! {
 //@include prelude/ndtrack.rs
 //@include prelude/ndgauss.rs
 
+// loops are verified in the context of their function (facts about values bound before a loop need no restating in
+// its invariant: hoisting a sub-expression out of a loop must not break the proof)
+#[verifier::loop_isolation(false)]
 pub mod unit_gauss2d {
     use vstd::prelude::*;
     use super::fl::*;
